@@ -24,9 +24,11 @@ def _len_of(e):
     return None
 
 
-def count_tests(g, counted):
+def count_tests(g, counted, alias=None):
     """test nodes comparing a count expression with a bound.  `counted`: set
-    of strings - either 'len:<expr>' or a plain name.  Returns
+    of strings - either 'len:<expr>' or a plain name.  `alias(name, node id)`:
+    true when the plain name holds, at that test, the very list object that
+    is counted (`len(<name>)` is then a count as well).  Returns
     [(node, reached_label)] where reached_label is the out-edge taken when the
     count has reached the bound."""
     out = []
@@ -39,6 +41,11 @@ def count_tests(g, counted):
         def key(e):
             le = _len_of(e)
             if le is not None:
+                if alias is not None and 'len:' + le not in counted and \
+                        isinstance(e.args[0], ast.Name) and \
+                        alias(le, n.id):
+                    return sorted(x for x in counted
+                                  if x.startswith('len:'))[0]
                 return 'len:' + le
             if isinstance(e, ast.Name):
                 return e.id
@@ -442,6 +449,63 @@ def check_chunk(prog, rep, rid, K, f, g, c, appends, res):
 
 
 # ------------------------------------------------------------------------------
+# the share form of a pick: the request is one number that is the count when
+# whole units are asked for and the share when a part of one unit is asked for
+# (gpus_per_slot).  An entry appended with `occupation=<that number>` holds
+# the whole request, so the slot needs exactly one: the pick leaves the search
+# loop, and the loop is left towards the append of the slot in no other way
+# (`for .. : if fits: pick; break` + `else: give up`).  The loop's own exits
+# are the count test then.
+#
+def _single_pick(f, g, P, call, A, fresh, reached, cts):
+    """the pick at cfg node P is the only one between the creation of its
+    list and the slot (exactly one entry), and that entry carries the bound
+    of the count tests `cts` as its share.  False: not of that form;
+    AnalysisError: of that form, but what one entry stands for is not known"""
+    loops = [h for h in P.loops if g.nodes[h].kind in ('for', 'while')]
+    if not loops:
+        return False
+    H = loops[-1]
+    # at most once: no way back to the pick with the same list
+    again = set()
+    for e in g.succ[P.id]:
+        if e.label != 'exc':
+            again |= g.reachable(e.dst, skip_nodes=fresh)
+    if P.id in again:
+        return False
+    # at least once: the search loop is left for the slot only through the
+    # pick (or through a count test that found the count reached)
+    r = g.reachable(H, skip_nodes=set(fresh) | {P.id}, skip_edges=reached)
+    if set(A) & r:
+        return False
+    # what one entry stands for
+    share = None
+    if call.args:
+        entry = _hoisted(g, call.args[0], P.id)[0]
+        if isinstance(entry, ast.Call):
+            share = kwarg(entry, 'occupation')
+        elif isinstance(entry, ast.Dict):
+            for k, v in zip(entry.keys, entry.values):
+                if isinstance(k, ast.Constant) and k.value == 'occupation':
+                    share = v
+    bounds = set()
+    for n, lab in cts:
+        c = n.ast
+        b = c.comparators[0] if _len_of(c.left) else c.left
+        bounds |= {x.id for x in walk(b) if isinstance(x, ast.Name)}
+    if share is not None and bounds:
+        dep = Deps(f.node, implicit=False).expr_depends(share)
+        if bounds & dep:
+            return True
+    raise AnalysisError(
+        'UNRECOGNISED-IDIOM %s: `%s` is the only pick between the creation '
+        'of its list and the slot (the search loop is left right after it), '
+        'but the entry does not carry the requested amount itself as its '
+        'share: whether one entry is what was asked for is not decided'
+        % (f.where, short(call, 50)))
+
+
+# ------------------------------------------------------------------------------
 # R02.1 / R02.11  count discipline of one pick site
 #
 def check_pick(rep, rid, kname, f, g, P, call, kind, A, done, recv, kill=()):
@@ -454,7 +518,15 @@ def check_pick(rep, rid, kname, f, g, P, call, kind, A, done, recv, kill=()):
     [(node, reached label)] that lie between this pick and the slot"""
     rroot = root_name(call.func.value)
     counted = {'len:' + recv}
-    cts = count_tests(g, counted)
+    alias = None
+    if isinstance(call.func.value, ast.Name):
+        # the list picked into may be known under another local at the test
+        # (`cores = picked ; if len(cores) < n`): one object, one length
+        mine = origin(g, rroot, P.id)
+
+        def alias(name, at):
+            return len(mine) == 1 and origin(g, name, at) == mine
+    cts = count_tests(g, counted, alias)
     # creation of a fresh receiver (new slot)
     creators = set()
     for n in g.stmt_nodes():
@@ -482,6 +554,9 @@ def check_pick(rep, rid, kname, f, g, P, call, kind, A, done, recv, kill=()):
             ra |= g.reachable(e.dst, skip_nodes=creators | set(kill),
                               skip_edges=reached)
     oka = not (set(A) & ra)
+    if not oka and _single_pick(f, g, P, call, A, creators | set(kill),
+                                reached, cts):
+        oka = True
     rep.check(oka, rid, f,
               '%s: after picking into %s the slot is appended only '
               'past a "count reached" test' % (kname, recv),
@@ -555,7 +630,8 @@ def r02_1(prog, rep, rid='R02.1'):
     for K in classes:
         f, g, d, nodevar, res, appends = find_resources_info(prog, K)
         rep.saw(f)
-        picks = pick_sites(prog, f, g, d, None)
+        picks = pick_sites(prog, f, g, d, {'cores': "%s['cores']" % nodevar,
+                                           'gpus': "%s['gpus']" % nodevar})
         A = [a.id for a in appends]
         chunks = chunk_sites(f, g)
         pools = {c.pool for c in chunks}
@@ -1262,6 +1338,11 @@ def r02_4(prog, rep):
                   '4 free cores: all 4 ranks are placed on one node')
         # the slot dict
         ff, fg, fd, nodevar, res, appends = find_resources_info(prog, K)
+        if ff.nested:
+            # the slot may be built by a local closure (`slot = _new_slot()`)
+            flat = flat_closures(prog, ff)
+            if flat is not ff:
+                ff, fd = flat, Deps(flat.node)
         dd = None
         for n in walk(ff.node):
             if isinstance(n, ast.Dict):
@@ -2285,6 +2366,341 @@ def r02_12(prog, rep, rid='R02.12'):
 
 
 # ------------------------------------------------------------------------------
+# R02.14  a placement the application supplies is looked up in the pilot
+# before it is used.  The scheduler never searched for it: that each rank's
+# node (and core / gpu index) exists is established by exactly one thing, the
+# normal return of `_change_slot_states(<those slots>, BUSY)`, which walks
+# self.nodes for every rank and raises for a node it does not find.  So
+# between the store of the description's slots as the task's placement and
+# the hand-on to the executor, every path leaves that call by its normal
+# edge; the path through an exception handler must not reach the hand-on.
+#
+class _Assumed(dict):
+    """flag values plus assumed truth values of sub expressions"""
+
+    def __init__(self, known, assume):
+        dict.__init__(self, known)
+        self.assume = assume
+
+
+def _const_flags(f):
+    """plain locals of `f` that only ever hold constants (`ok = True` ..
+    `ok = False`): every store is `<name> = <constant>`"""
+    vals, other = {}, set(f.params)
+    for x in ast.walk(f.node):
+        if isinstance(x, ast.Assign) and len(x.targets) == 1 and \
+                isinstance(x.targets[0], ast.Name) and \
+                isinstance(x.value, ast.Constant):
+            vals.setdefault(x.targets[0].id, []).append(x)
+        elif isinstance(x, (ast.Global, ast.Nonlocal)):
+            other |= set(x.names)
+    ok = {id(a.targets[0]) for v in vals.values() for a in v}
+    for x in ast.walk(f.node):
+        if isinstance(x, ast.Name) and isinstance(x.ctx, (ast.Store, ast.Del)) \
+                and id(x) not in ok:
+            other.add(x.id)
+        elif isinstance(x, ast.ExceptHandler) and x.name:
+            other.add(x.name)
+    return set(vals) - other
+
+
+def _truth(e, known, assume=None):
+    """three-valued truth of a test over the flags whose value is known;
+    `assume`: {id(sub expression): truth value}"""
+    if assume and id(e) in assume:
+        return assume[id(e)]
+    if assume:
+        known = _Assumed(known, assume)
+    if isinstance(e, ast.Constant):
+        return bool(e.value)
+    if isinstance(e, ast.Name):
+        return bool(known[e.id]) if e.id in known else None
+    if isinstance(e, ast.UnaryOp) and isinstance(e.op, ast.Not):
+        v = _truth(e.operand, known, getattr(known, 'assume', None))
+        return None if v is None else not v
+    if isinstance(e, ast.BoolOp):
+        vs = [_truth(x, known, getattr(known, 'assume', None))
+              for x in e.values]
+        if isinstance(e.op, ast.And):
+            return False if False in vs else (None if None in vs else True)
+        return True if True in vs else (None if None in vs else False)
+    if isinstance(e, ast.Compare) and len(e.ops) == 1 and \
+            isinstance(e.left, ast.Name) and e.left.id in known and \
+            isinstance(e.comparators[0], ast.Constant):
+        a, b, op = known[e.left.id], e.comparators[0].value, e.ops[0]
+        if isinstance(op, ast.Is):
+            return a is b
+        if isinstance(op, ast.IsNot):
+            return a is not b
+        if isinstance(op, ast.Eq):
+            return a == b
+        if isinstance(op, ast.NotEq):
+            return a != b
+    return None
+
+
+def flag_reachable(f, g, starts, skip_nodes=(), skip_edges=(), states=False):
+    """cfg node ids reachable from `starts` like g.reachable, but with the
+    constant-valued flags of `f` evaluated along the way: an edge of a test
+    that the flag values known on the path contradict is not taken (`ok =
+    False` in a handler, `if not ok: continue` behind it).  The effect of a
+    statement left by its exception edge did not happen."""
+    flags = _const_flags(f)
+    if not flags and not states:
+        return g.reachable(starts, skip_nodes=skip_nodes,
+                           skip_edges=skip_edges)
+    skip_nodes, se = set(skip_nodes), set(skip_edges)
+    todo = [(s_, ()) for s_ in starts]
+    seen = set()
+    while todo:
+        key = todo.pop()
+        nid, st = key
+        if key in seen or nid in skip_nodes:
+            continue
+        seen.add(key)
+        n = g.nodes[nid]
+        known = dict(st)
+        for e in g.succ[nid]:
+            if (e.src, e.label) in se or (e.src, e.dst, e.label) in se:
+                continue
+            st2 = st
+            if n.kind == 'test' and e.label in ('T', 'F') and \
+                    n.ast is not None:
+                v = _truth(n.ast, known)
+                if v is not None and v != (e.label == 'T'):
+                    continue
+            elif n.kind == 'stmt' and e.label != 'exc' and \
+                    isinstance(n.ast, ast.Assign) and \
+                    len(n.ast.targets) == 1 and \
+                    isinstance(n.ast.targets[0], ast.Name) and \
+                    n.ast.targets[0].id in flags:
+                k2 = dict(known)
+                k2[n.ast.targets[0].id] = n.ast.value.value
+                st2 = tuple(sorted(k2.items(), key=lambda kv: kv[0]))
+            todo.append((e.dst, st2))
+    if states:
+        return seen
+    return {nid for nid, st in seen}
+
+
+def _own_slots(g, T, e, at):
+    """expression `e` at cfg node `at` is the placement of task T (its 'slots'
+    entry, or what its own description supplies)"""
+    B = _key_read(e, _SLOTS)
+    if B is not None and unparse(B) == unparse(T):
+        return True
+    src = slots_source(g, T, e, at)
+    return bool(src) and src[0] == 'own'
+
+
+def _lookup_calls(prog, f, g, smap, K, T, busy, region=None):
+    """(checks, looks): cfg nodes of `_change_slot_states(<slots of T>,
+    BUSY)` statements; other calls that are given the placement of T"""
+    checks, looks = [], []
+    for c in calls_in(f.node):
+        n = smap.get(id(c))
+        if n is None or (region is not None and n.id not in region):
+            continue
+        args = list(c.args) + [k.value for k in c.keywords]
+        if not any(_own_slots(g, T, a, n) for a in args):
+            continue
+        callee = prog.resolve_call(f, c, K)
+        if callee is not None and callee.name == '_change_slot_states':
+            st = kwarg(c, 'new_state', 1)
+            a0 = kwarg(c, 'slots', 0)
+            if st is not None and a0 is not None and \
+                    _own_slots(g, T, a0, n) and \
+                    prog.fold(f.module, st, f.cls) == busy:
+                if n.kind != 'stmt':
+                    raise AnalysisError(
+                        'UNRECOGNISED-IDIOM %s: `%s` is not a statement of '
+                        'its own' % (f.where, short(c, 50)))
+                checks.append(n)
+                continue
+        looks.append(c)
+    return checks, looks
+
+
+def lookup_summary(prog, K, h, param, busy):
+    """what a normal return of helper `h` says about the placement of the
+    task it is given as `param`: 'always' = every normal return is past the
+    normal return of _change_slot_states(param['slots'], BUSY); 'true' = every
+    return of a true value is (what is returned without the look-up is a false
+    constant); None = nothing"""
+    if h.nested or any(isinstance(x, (ast.Yield, ast.YieldFrom))
+                       for x in ast.walk(h.node)):
+        return None
+    stores = {x.id for x in ast.walk(h.node) if isinstance(x, ast.Name) and
+              isinstance(x.ctx, (ast.Store, ast.Del))}
+    if param in stores:
+        return None
+    g = cfg_of(h)
+    smap = I.stmt_node_map(g)
+    T = ast.Name(id=param, ctx=ast.Load())
+    checks, looks = _lookup_calls(prog, h, g, smap, K, T, busy)
+    if not checks:
+        return None
+    passed = [(n.id, e.label) for n in checks for e in g.succ[n.id]
+              if e.label != 'exc']
+    seen = flag_reachable(h, g, [g.entry.id], skip_edges=passed, states=True)
+    if not any(nid == g.exit.id for nid, st in seen):
+        return 'always'
+    for nid, st in seen:
+        n = g.nodes[nid]
+        if not any(e.dst == g.exit.id for e in g.succ[nid]):
+            continue
+        if n.kind == 'stmt' and isinstance(n.ast, ast.Return):
+            v = n.ast.value
+            if v is None or _truth(v, dict(st)) is False:
+                continue
+            return None
+        if n.kind == 'stmt' and isinstance(n.ast, ast.Raise):
+            continue
+        # (the end of the body is reached: None, a false value, is returned)
+    return 'true'
+
+
+def r02_14(prog, rep, rid='R02.14'):
+    from .c01 import consts
+    rep.rule(rid, 'a placement supplied by the application is handed on for '
+             'execution only on paths on which _change_slot_states(<those '
+             'slots>, BUSY) returned normally: that call is what finds every '
+             "rank's node in self.nodes (and raises for a node or index the "
+             'pilot does not have)', minimum=1)
+    free, busy, down = consts(prog)
+    target = prog.const('states.py', 'AGENT_EXECUTING_PENDING')
+    base, classes = sched_classes(prog)
+    done = set()
+    for K in [base] + classes:
+        for mname, f in sorted(K.methods.items()):
+            if f in done:
+                continue
+            done.add(f)
+            if not any(isinstance(x, ast.Constant) and x.value == _SLOTS
+                       for x in walk(f.node)):
+                continue
+            g = cfg_of(f)
+            smap = I.stmt_node_map(g)
+            for T, V, stmt in slots_stores(f, smap):
+                S = smap.get(id(stmt)) or smap.get(id(T))
+                if S is None or V is None:
+                    continue
+                src = slots_source(g, T, V, S)
+                if not src or src[0] != 'own' or unparse(
+                        _key_read(src[1], _SLOTS) or T) == unparse(T):
+                    # (a task's own entry stored back is no new placement)
+                    continue
+                tt = unparse(T)
+                after = [e.dst for e in g.succ[S.id] if e.label != 'exc']
+                # one task: not past a re-binding of the task variable (the
+                # head of the loop over the tasks) or the store itself
+                stop = {S.id} | {x for x in origin(g, root_name(T), S.id)
+                                 if isinstance(x, int)}
+                region = g.reachable(after, skip_nodes=stop)
+                hand = []
+                for c in calls_in(f.node):
+                    H = smap.get(id(c))
+                    if H is None or H.id not in region or not I.is_handon(c):
+                        continue
+                    thing = I.handon_thing(c)
+                    if thing is None or unparse(thing) != tt or \
+                            not _same_binding(g, T, S.id, H.id):
+                        continue
+                    if I.handon_state(prog, f, c) == target:
+                        hand.append((H, c))
+                if not hand:
+                    continue
+                rep.saw(f)
+                checks, looks = _lookup_calls(prog, f, g, smap, K, T, busy,
+                                              region)
+                passed = [(n.id, e.label) for n in checks
+                          for e in g.succ[n.id] if e.label != 'exc']
+                # helpers of the class that are given the task and do the
+                # look-up themselves
+                for c in calls_in(f.node):
+                    n = smap.get(id(c))
+                    if n is None or n.id not in region:
+                        continue
+                    h = prog.resolve_call(f, c, K)
+                    if h is None or h.cls is None or h is f or \
+                            h.name == '_change_slot_states':
+                        continue
+                    ps = [x for x in h.params if x != 'self']
+                    bound = dict(zip(ps, c.args))
+                    bound.update({k.arg: k.value for k in c.keywords
+                                  if k.arg in ps})
+                    for pn, a in sorted(bound.items()):
+                        if unparse(a) != tt or \
+                                not _same_binding(g, T, S.id, n.id):
+                            continue
+                        what = lookup_summary(prog, K, h, pn, busy)
+                        if what is None:
+                            continue
+                        checks.append(n)
+                        if what == 'always' and n.kind == 'stmt':
+                            passed += [(n.id, e.label) for e in g.succ[n.id]
+                                       if e.label != 'exc']
+                            continue
+                        if n.kind == 'test' and n.ast is not None:
+                            v = _truth(n.ast, {}, {id(c): False})
+                            if v is not None:
+                                # the edge taken only when the helper
+                                # returned a true value
+                                passed.append((n.id, 'F' if v else 'T'))
+                                continue
+                        raise AnalysisError(
+                            'UNRECOGNISED-IDIOM %s: what `%s` returns says '
+                            'whether the supplied placement was looked up, '
+                            'but how the result is used is not recognised'
+                            % (f.where, short(c, 50)))
+                r = flag_reachable(f, g, after, skip_nodes=stop,
+                                   skip_edges=passed)
+                for H, c in hand:
+                    if not checks and looks:
+                        raise AnalysisError(
+                            'UNRECOGNISED-IDIOM %s: the application-supplied '
+                            'placement of %s is not passed to '
+                            '_change_slot_states(.., BUSY) but to `%s`: '
+                            'whether that looks up the nodes is not decided'
+                            % (f.where, tt, short(looks[0], 50)))
+                    via = ''
+                    if checks and H.id in r:
+                        hs = [n for n in g.nodes if n.kind == 'handler' and
+                              n.id in r and H.id in g.reachable(
+                                  n.id, skip_nodes=stop, skip_edges=passed)]
+                        if hs:
+                            via = ' (through the handler `%s`, which does ' \
+                                  'not leave the path of this task)' % short(
+                                      hs[0].ast, 30).split(':')[0]
+                    rep.check(H.id not in r, rid, f,
+                              "%s: %s with application-supplied slots is "
+                              'handed on only past the normal return of '
+                              '_change_slot_states(.., BUSY)' % (f.qual, tt),
+                              construct='%s:supplied-placement-unchecked'
+                              % f.qual,
+                              message="%s stores the slots of the task's "
+                              "description as %s['slots'] and hands the task "
+                              'on to AGENT_EXECUTING_PENDING on a path on '
+                              'which _change_slot_states(.., BUSY) did not '
+                              'return normally%s.  That call is the only '
+                              'place where the nodes and core / gpu indices '
+                              'of a placement the scheduler did not compute '
+                              'are looked up in self.nodes; when it raises '
+                              "('inconsistent node information', IndexError) "
+                              'the placement names a node or core the pilot '
+                              'does not have, and the task is started on it '
+                              'all the same' % (f.qual, tt, via),
+                              loc=f.loc(c),
+                              history='pilot of 2 nodes; a task arrives with '
+                              "td['slots'] = [{'node_index': 7, 'cores': "
+                              "[{'index': 0, ..}], ..}]: _change_slot_states "
+                              "raises RuntimeError('inconsistent node "
+                              "information'), the task is failed AND advanced "
+                              'to AGENT_EXECUTING_PENDING with its rank on '
+                              'node 7')
+
+
+# ------------------------------------------------------------------------------
 # R02.13  the request the scheduler reads is the request the application made.
 # schedule_task sizes the placement from td['ranks'] and the per-rank
 # attributes of REQ (R02.7).  The deprecated spellings of exactly these
@@ -2436,6 +2852,7 @@ def run(prog, rep, tier):
     rep.attempt(r02_11, prog, rep)
     rep.attempt(r02_12, prog, rep)
     rep.attempt(r02_13, prog, rep)
+    rep.attempt(r02_14, prog, rep)
     from .c01 import r02_8
     rep.attempt(r02_8, prog, rep)
     # R02.3 information
@@ -2598,6 +3015,84 @@ def _fs_shared(gpu_args='self.gpus, rr.n_gpus, rr.gpu_occupation'):
              % gpu_args)]
 
 
+# --- the application-supplied placement of _schedule_incoming (R02.14)
+_PRE_TRY = ("                    try:\n"
+            "                        self._change_slot_states(task['slots'], rpc.BUSY)\n"
+            "                    except Exception as e:\n"
+            "                        self._fail_task(task, e,\n"
+            "                                        '\\n'.join(ru.get_exception_trace()))\n")
+_PRE_CONT = "                        continue\n"
+_PRE_GO = ("                    self._active_cnt += 1\n\n"
+           "                    self.advance(task, rps.AGENT_EXECUTING_PENDING,\n"
+           "                                 publish=True, push=True, fwd=True)\n"
+           "                    continue\n")
+_PRE_ALL = _PRE_TRY + _PRE_CONT + _PRE_GO
+
+# --- Node.find_slot with the pick loops in a static helper that returns what
+#     it found; the caller compares the length (seed C02-r10)
+_FS_PICK = ("    @staticmethod\n"
+            "    def _pick_ros(ros, count, occupation):\n\n"
+            "        picked = list()\n\n"
+            "        for ro in ros:\n"
+            "            if ro.occupation is DOWN:\n"
+            "                continue\n"
+            "            if occupation <= BUSY - ro.occupation:\n"
+            "                picked.append(RO(index=ro.index, occupation=occupation))\n"
+            "            if len(picked) == count:\n"
+            "                break\n\n"
+            "        return picked\n\n\n"
+            "    # --------------------------------------------------------------------------\n"
+            "    #\n")
+
+
+def _fs_picked(gpu_test='len(gpus) < n_gpus', stop='len(picked) == count',
+               gpu_count='n_gpus'):
+    """seed C02-r10: `_pick_ros` returns the list, find_slot caches the
+    counts in locals and refuses a short list itself"""
+    return [(_N, _FS_DEF, _FS_PICK.replace('len(picked) == count', stop) +
+             _FS_DEF + "            n_cores = rr.n_cores\n"
+                       "            n_gpus  = rr.n_gpus\n"),
+            (_N, _FS_CORES,
+             "                cores = self._pick_ros(self.cores, n_cores,\n"
+             "                                       rr.core_occupation)\n"
+             "                if len(cores) < n_cores:\n                    return None\n"),
+            (_N, _FS_GPUS,
+             "                gpus = self._pick_ros(self.gpus, %s,\n"
+             "                                      rr.gpu_occupation)\n"
+             "                if %s:\n                    return None\n"
+             % (gpu_count, gpu_test))]
+
+
+# --- the share branch of Continuous._find_resources as for / else (seed
+#     C01-r10): the pick leaves the loop, exhaustion gives the node up
+_SHARE_OLD = ("                    if gpus_per_slot <= rpc.BUSY - gpu_used:\n"
+              "                        slot['gpus'].append(RO(index=gpu_idx,\n"
+              "                                               occupation=gpus_per_slot))\n"
+              "                        gpu_shares[gpu_idx] = gpus_per_slot + \\\n"
+              "                                              gpu_shares.get(gpu_idx, 0.0)\n"
+              "                        break\n"
+              "                    else:\n"
+              "                        loop_gpu_idx = gpu_idx + 1\n\n"
+              "                if len(slot['gpus']) < 1:\n"
+              "                    self._log.debug_9('not enough gpus on %s (2)', node_name)\n"
+              "                    break\n")
+
+
+def _share_forelse(tail="                else:\n"
+                        "                    self._log.debug_9('not enough gpus on %s (2)', node_name)\n"
+                        "                    break\n",
+                   leave="                        break\n",
+                   occ='gpus_per_slot'):
+    return [(_C, _SHARE_OLD,
+             "                    if gpus_per_slot <= rpc.BUSY - gpu_used:\n"
+             "                        slot['gpus'].append(RO(index=gpu_idx,\n"
+             "                                               occupation=%s))\n"
+             "                        gpu_shares[gpu_idx] = gpus_per_slot + \\\n"
+             "                                              gpu_shares.get(gpu_idx, 0.0)\n"
+             % occ + leave +
+             "                    loop_gpu_idx = gpu_idx + 1\n\n" + tail)]
+
+
 MUTATIONS = [
     dict(name='R02.1 short-cores test off by one', rules=('R02.1',), edits=[
         (_C, "            if len(slot['cores']) < cores_per_slot:\n                self._log.debug_9('not enough cores on %s', node_name)\n                break\n",
@@ -2748,6 +3243,37 @@ MUTATIONS = [
     dict(name='R02.11 find_slot: shared pick helper called with the core pool for the GPUs', rules=('R02.11', 'R02.S'),
          edits=_fs_shared('self.cores, rr.n_gpus, rr.gpu_occupation'),
          note='as above'),
+    dict(name='R02.14 handler of the supplied-placement check falls through to the start (seed C02-h5)', rules=('R02.14',), edits=[
+        (_B, _PRE_ALL, _PRE_TRY + _PRE_GO)]),
+    dict(name='R02.14 handler leaves only when nothing is running', rules=('R02.14',), edits=[
+        (_B, _PRE_ALL, _PRE_TRY + "                        if not self._active_cnt:\n                            continue\n" + _PRE_GO)]),
+    dict(name='R02.14 supplied placement started before it is looked up', rules=('R02.14',), edits=[
+        (_B, _PRE_ALL, "                    self.advance(task, rps.AGENT_EXECUTING_PENDING,\n"
+                       "                                 publish=True, push=True, fwd=True)\n" +
+                       _PRE_TRY + _PRE_CONT + "                    self._active_cnt += 1\n                    continue\n")]),
+    dict(name='R02.14 outcome of the look-up kept in a flag that the handler forgets to clear', rules=('R02.14',), edits=[
+        (_B, _PRE_ALL, "                    placed = True\n" + _PRE_TRY +
+                       "                    if not placed:\n                        continue\n" + _PRE_GO)]),
+    dict(name='R02.14 look-up in a helper whose handler falls through to `return True`', rules=('R02.14',), edits=[
+        (_B, _PRE_ALL, "                    if not self._mark_supplied(task):\n                        continue\n" + _PRE_GO),
+        (_B, _TRY_DEF, "    # --------------------------------------------------------------------------\n    #\n"
+                       "    def _mark_supplied(self, task):\n\n"
+                       "        try:\n"
+                       "            self._change_slot_states(task['slots'], rpc.BUSY)\n"
+                       "        except Exception as e:\n"
+                       "            self._fail_task(task, e, '\\n'.join(ru.get_exception_trace()))\n"
+                       "        return True\n\n\n" + _TRY_DEF)]),
+    dict(name='R02.1 share pick as for/else: exhaustion of the GPUs no longer gives the node up', rules=('R02.1',),
+         edits=_share_forelse(tail="                else:\n"
+                                   "                    self._log.debug_9('not enough gpus on %s (2)', node_name)\n")),
+    dict(name='R02.1 share pick as for/else: picking goes on after the first GPU', rules=('R02.1',),
+         edits=_share_forelse(leave="                        continue\n")),
+    dict(name='R02.11 find_slot, pick helper returns the list (seed C02-r10 shape): short GPU list compared with the core count', rules=('R02.11',),
+         edits=_fs_picked(gpu_test='len(gpus) < n_cores')),
+    dict(name='R02.11 find_slot, pick helper returns the list: helper asked for n_cores GPUs', rules=('R02.11', 'R02.S'),
+         edits=_fs_picked(gpu_count='n_cores')),
+    dict(name='R02.11 find_slot, pick helper returns the list: short GPU list is not refused', rules=('R02.11',),
+         edits=_fs_picked(gpu_test='False')),
 ]
 
 SILENT = [
@@ -2858,4 +3384,41 @@ SILENT = [
         (_T, "            self.gpus_per_rank = float(self.gpu_processes)\n", "            n_gpus = self.gpu_processes\n            self.gpus_per_rank = float(n_gpus)\n")]),
     dict(name='find_slot: the two pick loops extracted into one static helper (seeds C02-r4, C02-r8)',
          edits=_fs_shared()),
+    dict(name='supplied placement: success path in the else clause of the try', edits=[
+        (_B, _PRE_ALL, _PRE_TRY +
+         "                    else:\n"
+         "                        self._active_cnt += 1\n\n"
+         "                        self.advance(task, rps.AGENT_EXECUTING_PENDING,\n"
+         "                                     publish=True, push=True, fwd=True)\n"
+         "                    continue\n")]),
+    dict(name='supplied placement: outcome of the look-up kept in a flag', edits=[
+        (_B, _PRE_ALL, "                    placed = True\n" + _PRE_TRY +
+         "                        placed = False\n"
+         "                    if not placed:\n                        continue\n" + _PRE_GO)]),
+    dict(name='supplied placement: slots hoisted into a local, renamed handler variable', edits=[
+        (_B, _APP_OLD, "                    supplied          = td['slots']\n                    task['slots']     = supplied\n"),
+        (_B, _PRE_TRY, "                    try:\n"
+                       "                        self._change_slot_states(supplied, rpc.BUSY)\n"
+                       "                    except Exception as exc:\n"
+                       "                        self._fail_task(task, exc,\n"
+                       "                                        '\\n'.join(ru.get_exception_trace()))\n")]),
+    dict(name='supplied placement: look-up extracted into a helper that says whether it worked', edits=[
+        (_B, _PRE_ALL, "                    if not self._mark_supplied(task):\n                        continue\n" + _PRE_GO),
+        (_B, _TRY_DEF, "    # --------------------------------------------------------------------------\n    #\n"
+                       "    def _mark_supplied(self, task):\n\n"
+                       "        try:\n"
+                       "            self._change_slot_states(task['slots'], rpc.BUSY)\n"
+                       "        except Exception as e:\n"
+                       "            self._fail_task(task, e, '\\n'.join(ru.get_exception_trace()))\n"
+                       "            return False\n"
+                       "        return True\n\n\n" + _TRY_DEF)]),
+    dict(name='share pick of _find_resources as for / else (seed C01-r10)',
+         edits=_share_forelse()),
+    dict(name='share pick as for / else, the share hoisted into a local',
+         edits=_share_forelse(occ='share') + [
+             (_C, "            elif gpus_per_slot > 0.0:\n", "            elif gpus_per_slot > 0.0:\n\n                share = gpus_per_slot\n")]),
+    dict(name='find_slot: pick helper returns the list, counts cached in locals (seed C02-r10)',
+         edits=_fs_picked()),
+    dict(name='find_slot: pick helper returns the list, short test as bound > len', edits=_fs_picked(gpu_test='n_gpus > len(gpus)')),
+    dict(name='find_slot: pick helper returns the list, stop test as >=', edits=_fs_picked(stop='len(picked) >= count')),
 ]
